@@ -345,12 +345,15 @@ def rule_Q3(ctx) -> None:
             atom = ("call", N("isinstance"), (N(params[2]), N(cls_)), ())
             atom_o = ("call", N("isinstance"), (N(params[2]), N(other)), ())
             # a value of that class, whatever `wraps` says: every path that produces something converts it first
-            paths = Interp(mod, bindings={N(params[0]): "message"}, assume={atom: True, atom_o: False, ("op", "is", N(params[2]), C(None)): False}).run(fn)
+            # the size twin may be defined through the encoder (`len(_preprocess_single(..))`): read through it
+            inl_ = {"_preprocess_single": (mod, mod.func("_preprocess_single"))} if q != "_preprocess_single" and any(
+                isinstance(c_, ast.Call) and isinstance(c_.func, ast.Name) and c_.func.id == "_preprocess_single" for c_ in ast.walk(fn)) else {}
+            paths = Interp(mod, bindings={N(params[0]): "message"}, assume={atom: True, atom_o: False, ("op", "is", N(params[2]), C(None)): False}, inline=inl_).run(fn)
             ctx.count(len(paths))
             for p in paths:
                 if p.outcome != "return":
                     continue
-                callees = {dotted(e.data[1]) for e in p.events if e.kind == "call"}
+                callees = {dotted(e.data[1]) for e in p.events if e.kind == "call" and dotted(e.data[1]) != "_preprocess_single"}
                 got = {c for c in callees if c.endswith("from_datetime") or c.endswith("from_timedelta")}
                 conv[cls_] |= got
                 if not got or any(c.endswith("_get_wrapper") for c in callees):
